@@ -2,9 +2,11 @@
    Nothing but statements, closed by [exact], each followed by Print Assumptions.
    Models: Lang/Escape.v (escape = _escape_string_literal; clex_string = the g++ lexer of one
    ordinary string literal), Lang/Sections.v (the emitter's stitching order, declared-before-use).
+   Lang/Scope.v (C++ block scoping over the IR of the statement translator Lang/Transl.v).
    The C++ type checker is not modelled: it is g++ itself, run by harness/props/c06.py. *)
 From Coq Require Import ZArith List Bool Sorting.Sorted.
-From RV Require Import Base.Wire Lang.Escape Lang.Sections Proofs.EscapeP Proofs.SectionsP.
+From RV Require Import Base.Wire Base.Text Lang.Escape Lang.Sections Proofs.EscapeP Proofs.SectionsP.
+From RV Require Import Lang.StmtAst Lang.Transl Lang.Scope Proofs.ScopeP.
 Import ListNotations.
 Open Scope Z_scope.
 
@@ -79,7 +81,7 @@ Print Assumptions C06_wf_order_meaning.
 (* consequence of the order: a user function that calls <sensor>.measure_distance()
    mentions __redu_ultrasonic_measure_<sensor> BEFORE its definition - for every choice
    of names; the offending item is item 1 (the function), the identifier the helper *)
-Theorem C06_fn_uses_ultra_refuted : forall core fn helper : ident,
+Theorem C06_fn_uses_ultra_refuted : forall core fn helper : Sections.ident,
   helper <> fn -> helper <> core ->
   wf_order (stitch (ultra_in_function core fn helper)) = false /\
   undeclared (stitch (ultra_in_function core fn helper)) = [(1, helper)].
@@ -87,7 +89,7 @@ Proof. exact fn_uses_ultra_breaks. Qed.
 Print Assumptions C06_fn_uses_ultra_refuted.
 
 (* same for a function calling one that is defined later in the script (no prototypes) *)
-Theorem C06_fn_forward_call_refuted : forall core f g : ident,
+Theorem C06_fn_forward_call_refuted : forall core f g : Sections.ident,
   g <> f -> g <> core -> wf_order (stitch (forward_call core f g)) = false.
 Proof. exact fn_forward_call_breaks. Qed.
 Print Assumptions C06_fn_forward_call_refuted.
@@ -106,7 +108,7 @@ Theorem C06_proto_fix_wf : forall sk : sketch,
 Proof. exact proto_fix_wf. Qed.
 Print Assumptions C06_proto_fix_wf.
 
-Theorem C06_proto_fix_covers_findings : forall core fn helper : ident,
+Theorem C06_proto_fix_covers_findings : forall core fn helper : Sections.ident,
   wf_order (stitch_proto (ultra_in_function core fn helper)) = true /\
   wf_order (stitch_proto (forward_call core fn helper)) = true.
 Proof. exact proto_fix_covers_findings. Qed.
@@ -117,3 +119,70 @@ Example C06_guard_nonvacuous :
   length (stitch demo_sketch) = 10%nat /\ undeclared (stitch demo_sketch) = [].
 Proof. exact guard_nonvacuous. Qed.
 Print Assumptions C06_guard_nonvacuous.
+
+(* escaping only ever lengthens by one per backslash / quote, and introduces no line end *)
+Theorem C06_escape_length : forall s : text,
+  length (escape s) = (length s + length (filter (fun c : Z => Z.eqb c 92 || Z.eqb c 34) s))%nat.
+Proof. exact escape_length. Qed.
+Print Assumptions C06_escape_length.
+
+Theorem C06_escape_no_new_line_end : forall s : text,
+  (forall c, In c s -> c <> 10 /\ c <> 13) -> (forall c, In c (escape s) -> c <> 10 /\ c <> 13).
+Proof. exact escape_no_new_line_end. Qed.
+Print Assumptions C06_escape_no_new_line_end.
+
+(* the stitched sketch consists of exactly the given sections: nothing lost, nothing invented *)
+Theorem C06_stitch_complete : forall (sk : sketch) (k : skind) (b : body),
+  In (k, b) (stitch sk) <->
+  (k = KInclude /\ In b (sk_includes sk)) \/ (k = KHelper /\ In b (sk_helpers sk)) \/
+  (k = KGlobal /\ In b (sk_globals sk)) \/ (k = KFunction /\ In b (sk_functions sk)) \/
+  (k = KUltra /\ In b (sk_ultras sk)) \/ (k = KSetup /\ b = sk_setup sk) \/ (k = KLoop /\ b = sk_loop sk).
+Proof. exact stitch_complete. Qed.
+Print Assumptions C06_stitch_complete.
+
+(* ---------------------------------------------------------------- user variables: declared before use *)
+
+(* For EVERY program of the statement fragment (assignments, augmented and tuple assignments,
+   if/elif/else, while, for-range, break, write, sleep - Lang/Transl.v, the model of
+   _handle_assignment_ast and the promotion machinery that unit C01_stmt ties to the real parser):
+   in the emitted IR every assignment targets a variable that is visible under C++ block scoping -
+   a global, a local declared earlier in an enclosing block, or the for variable; promoted
+   declarations precede the control statement they were hoisted out of, and the rewriters turn
+   the inner declarations into assignments without breaking this.  In setup() always; in loop()
+   provided setup() has no top-level local declaration (guard; see the next theorem).
+   Not covered: targets of augmented assignments (x op= e never declares: Python's NameError when
+   x is unbound), reads inside expressions, redeclaration in one block, the tuple temporaries. *)
+Theorem C06_transl_scoped_partial : forall (p : pprog) (c : cprog), transl p = Some c ->
+  scoped_b false (gnames (c_globals c)) (c_setup c) = true /\
+  (topdecls (c_setup c) = [] -> scoped_b false (gnames (c_globals c)) (c_loop c) = true).
+Proof. exact transl_scoped. Qed.
+Print Assumptions C06_transl_scoped_partial.
+
+(* without the guard it is false:  a = 1 ; a, b = 2, 3 ; while True: b = b + 1   declares b as a
+   LOCAL of setup() (tuple assignment that is not all-new), loop() assigns an undeclared b *)
+Theorem C06_tuple_local_refuted :
+  exists p c, transl p = Some c /\ scoped_b false (gnames (c_globals c)) (c_setup c) = true /\
+              topdecls (c_setup c) <> [] /\ scoped_b false (gnames (c_globals c)) (c_loop c) = false.
+Proof. exact tuple_local_refuted. Qed.
+Print Assumptions C06_tuple_local_refuted.
+
+(* and with the targets of augmented assignments checked as well it is false even inside the
+   guard:  for i in range(3): sleep(1) ; i += 1   (the for variable lives in the for header only) *)
+Theorem C06_aug_forvar_refuted :
+  exists p c, transl p = Some c /\ topdecls (c_setup c) = [] /\
+              scoped_prog false c = true /\ scoped_prog true c = false.
+Proof. exact aug_forvar_refuted. Qed.
+Print Assumptions C06_aug_forvar_refuted.
+
+(* the promotion rewriters preserve scoping when the promoted names become visible *)
+Theorem C06_rewriters_preserve_scoping : forall (aug : bool) (pn : list StmtAst.ident) (l : list cnode) (V V' : list StmtAst.ident),
+  incl V V' -> incl pn V' -> scoped_b aug V l = true ->
+  scoped_b aug V' (map (rewrite_if pn) l) = true /\ scoped_b aug V' (map (rewrite_deep pn) l) = true.
+Proof. exact (fun aug pn l V V' I P H => conj (scoped_map_rewrite_if aug pn l V V' I P H) (scoped_map_rewrite_deep aug pn l V V' I P H)). Qed.
+Print Assumptions C06_rewriters_preserve_scoping.
+
+Example C06_scope_nonvacuous :
+  exists c, transl scope_demo = Some c /\ topdecls (c_setup c) = [] /\ scoped_prog false c = true /\
+            length (c_globals c) = 3%nat /\ length (c_loop c) = 8%nat.
+Proof. exact scope_demo_ok. Qed.
+Print Assumptions C06_scope_nonvacuous.
